@@ -872,8 +872,8 @@ PARTIAL = ('The proof covers lopdf\'s own loops, recursion, budgets, limits, ind
            'decoding behind extract_text enter the older C13 theorems as functions that return (Section variables); since the '
            'composition round they are ALSO instantiated with the models of C04/C09/C14/C15/C16 in an outcome monad that can '
            'express their panics (C13_get_page_content_total_real: no assumption beyond "flate2 / weezl return"; '
-           'C13_extract_text_total_real_partial: additionally encoding_rs UTF_16BE.decode returns, and nom returns on the one '
-           'corner of the CMap grammar the model does not cover -- a CIDSystemInfo dictionary with nested values).  '
+           'C13_extract_text_chunks_total_real_partial / C13_extract_text_total_real_partial: additionally encoding_rs UTF_16BE.decode returns, and nom returns on the one '
+           'corner of the CMap grammar the model does not cover -- a CIDSystemInfo dictionary holding a value other than a name, a short integer or a plain literal string).  '
            'extract_text is tied by outcome class only.')
 
 SPEC = {
